@@ -213,7 +213,7 @@ CHECKS = {
 }
 
 # properties whose check currently passes on the unchanged tree and is registered
-CLAIMED = ['C01', 'C02', 'C04', 'C05', 'C07', 'C08', 'C11', 'C12', 'C13', 'C14', 'C16', 'C17', 'C18', 'C19', 'C20']
+CLAIMED = ['C01', 'C02', 'C04', 'C05', 'C06', 'C07', 'C08', 'C11', 'C12', 'C13', 'C14', 'C16', 'C17', 'C18', 'C19', 'C20']
 
 PENDING = {
 }
